@@ -1,6 +1,7 @@
 #!/bin/bash
-# re-runs every stored behaviour-preserving refactor (refactors/<id>_<n>/patch.diff) against the current checks (self-test tooling):
+# re-runs every stored behaviour-preserving refactor (refactors/<name>/patch.diff) against the current checks (self-test tooling):
 # expected "quiet" (exit 0, no VIOLATION); UNDECIDED lines are allowed.  usage: tools/reeval_refactors.sh [parallel jobs]
+# properties: meta.json "properties" when present, else the Cxx prefix of the directory name
 cd "$(dirname "$0")/.."
 PAR=${1:-3}
-ls refactors | xargs -P $PAR -I{} bash -c 'd={}; p=${d%%_*}; python3 tools/eval_refactor.py refactors/$d $p 2>&1 | grep "^REFACTOR"'
+ls refactors | xargs -P $PAR -I{} bash -c 'd={}; p=$(python3 -c "import json,sys; m=json.load(open(\"refactors/$d/meta.json\")); print(\",\".join(m.get(\"properties\") or [\"$d\".split(\"_\")[0]]))" 2>/dev/null || echo ${d%%_*}); python3 tools/eval_refactor.py refactors/$d $p 2>&1 | grep "^REFACTOR"'
